@@ -65,6 +65,8 @@ def edge_list(a):
     edges = _tuples(a['edges'])
     if a.get('as_array'):
         edges = np.array(edges)
+        if isinstance(a['as_array'], str):          # the same integers in another integer type (what scipy's .nonzero() / .indices give)
+            edges = edges.astype(a['as_array'])
     return _view(sk_parse.from_edge_list(edges, **_flags(a['flags'])))
 
 
